@@ -141,6 +141,7 @@ def run(ctx):
             ctx.add('W4.verification-disabled-only-on-request', '%s|no_tls_verify=%s' % (fn.split('::')[-1], nv), loc(Cb.root), ok,
                     'certificate verification is %s although no_tls_verify is %s' % ('disabled' if d else 'kept', nv))
         ctx.floor('W4', fn.split('::')[-1] + ' paths', n, 2)
+    check_settings_copy(ctx, f)
     ts = 'ldap3::conn::LdapConnAsync::create_tls_stream'
     if ts in f.hir:
         T = hirq.Body(f, f.body(ts))
@@ -170,3 +171,38 @@ def run(ctx):
                 okh = okh
             ctx.add('W4.connect-arguments', 'custom=%s' % custom, loc(T.root), okh and a[-1] == ('param', 'stream'), 'the handshake is not run for (hostname, stream) as given')
         ctx.floor('W4', 'create_tls_stream connect paths', n, 2)
+
+
+def check_settings_copy(ctx, f):
+    """W5 - a copy of the connection settings asks for the same protection as the original: if the settings type can be cloned
+    (derived or hand-written), the clone's starttls / no_tls_verify / connector / config are the original's on every path of
+    `Clone::clone`.  (Settings are routinely prepared once and cloned per connection; a clone that forgets `starttls` opens a
+    cleartext session although StartTLS was requested.)"""
+    st = 'ldap3::conn::LdapConnSettings'
+    p = '<%s as core::clone::Clone>::clone' % st
+    fields = [fl['name'] for v in (f.items.get(st) or {}).get('variants', []) for fl in v['fields']]
+    tls_fields = [x for x in ('starttls', 'no_tls_verify', 'connector', 'config') if x in fields]
+    ctx.add('W5.settings-fields', st, '', 'starttls' in fields, 'the settings struct has no starttls field: anchor lost')
+    if p not in f.hir:
+        ctx.ok('W5.settings-copy-keeps-tls-request', 'not Clone', '', 'the settings type cannot be cloned in this configuration')
+        return
+    B = hirq.Body(f, f.body(p))
+    ctx.analysed['bodies'].add(p)
+    SELF = ('param', 'self')
+    n = 0
+    for o in absx.Interp(f, B, combinators=True, inline=lambda c: c.endswith('core::default::Default>::default')).run():
+        if o.kind not in ('val', 'ret'):
+            continue
+        n += 1
+        v = o.val
+        got = dict(v[2]) if v[0] == 'struct' else {}
+        def same(x, name):
+            # the field itself, possibly through clone()/copy
+            while x and x[0] == 'call' and x[1].rsplit('::', 1)[-1] in ('clone', 'to_owned') and x[2]:
+                x = x[2][0]
+            return x == ('field', SELF, name)
+        wrong = [name for name in tls_fields if not same(got.get(name), name)]
+        ctx.add('W5.settings-copy-keeps-tls-request', ','.join(tls_fields), loc(B.root), v[0] == 'struct' and not wrong,
+                'a clone of the connection settings does not carry over %s (it becomes %s): a connection opened from the copy is not protected as requested' % (
+                    wrong, [absx.fmt(got.get(x, ('unk',)))[:30] for x in wrong]))
+    ctx.floor('W5', 'paths of the settings\' Clone::clone', n, 1)
